@@ -57,7 +57,19 @@ def enumerate_cases(tier, seed):
         var = runner.slice_by_seed(var, seed, 6)
         l2 = runner.slice_by_seed(l2, seed, L2_SLICES_QUICK)
         sib = runner.slice_by_seed(sib, seed, 3)
-    return cases + var + l2 + sib
+    # the exhaustive node-parameter spaces of C02 (every slice, roll shift, axis, advanced-index
+    # placement, einsum specification): the Python target re-synthesises slices / einsum specs
+    from vf.checks import c02
+    seen = set()
+    extra = []
+    for g, t in c02.gen_terms("quick"):
+        k = T.tkey(t)
+        if k not in seen and g not in ("Reshape", "CSRMatmul"):
+            seen.add(k)
+            extra.append({"fam": "c02:" + g, "outs": [["out", t]]})
+    rs = [{"fam": "c02:Reshape", "outs": [["out", t]]} for g, t in c02.gen_terms("quick") if g == "Reshape"]
+    extra += rs if tier != "quick" else runner.slice_by_seed(rs, seed, 6)
+    return cases + var + l2 + sib + extra
 
 
 def run_case(case):  # noqa: C901
